@@ -47,6 +47,19 @@ func newWorld(pubs, chainLen int, opts ...dagsync.Option) *world {
 	}
 	opts = append(opts, dagsync.RecvAnnounce("", announce.WithAllowPeer(func(peer.ID) bool { return true })))
 	w.NewSubscriber(opts...)
+	// Warm-up, as in the scheduled scenarios: one explicit-head sync of the
+	// oldest advertisement per publisher, so that the handler and its syncer
+	// exist. Without it the bodies provoke the library's cold-start race on
+	// handler.syncer (DESIGN.md 13.6: two first syncs of one publisher both
+	// create and publish a Syncer without synchronisation), and the detector
+	// then also flags every later use of that Syncer against its initialising
+	// writes, which would drown everything else.
+	for i, p := range w.Pubs {
+		if _, err := w.Sub.SyncAdChain(context.Background(), p.AddrInfo(), dagsync.WithHeadAdCid(w.chains[i].Cids[0])); err != nil {
+			panic(fmt.Sprintf("warm-up sync failed: %v", err))
+		}
+	}
+	synctest.Wait()
 	return w
 }
 
